@@ -59,9 +59,11 @@ theorem evalTerm_find {i k : Nat} {t : Term} (h : Term.find? i t = some k) (x : 
     split at h
     · rename_i hq
       injection h with h
-      simp only [evalTerm_cons, if_pos hq, hq, h]
+      rw [if_pos hq]
+      simp only [evalTerm_cons, hq, h]
     · rename_i hq
-      simp only [evalTerm_cons, if_neg hq, ih h]; ring
+      rw [if_neg hq]
+      simp only [evalTerm_cons, ih h]; ring
 
 theorem evalTerm_setPow {i k : Nat} {t : Term} (h : Term.find? i t = some k) (j : Nat) (x : List F) :
     evalTerm (Term.setPow i j t) x = fpow (getD' x i 0) j * evalTerm (Term.erase i t) x := by
@@ -72,9 +74,11 @@ theorem evalTerm_setPow {i k : Nat} {t : Term} (h : Term.find? i t = some k) (j 
     simp only [Term.erase, Term.setPow]
     split at h
     · rename_i hq
-      simp only [evalTerm_cons, if_pos hq]
+      rw [if_pos hq, if_pos hq]
+      simp only [evalTerm_cons]
     · rename_i hq
-      simp only [evalTerm_cons, if_neg hq, ih h]; ring
+      rw [if_neg hq, if_neg hq]
+      simp only [evalTerm_cons, ih h]; ring
 
 /-- the `while` loop: `c·X^(k+1)·E = (X − z)·(q(x) + c'·E) + z·c'·E` -/
 theorem divPowers_spec {i k0 : Nat} {t : Term} (hf : Term.find? i t = some k0) (zi : F)
@@ -88,9 +92,7 @@ theorem divPowers_spec {i k0 : Nat} {t : Term} (hf : Term.find? i t = some k0) (
     simp only [divPowers, evalMV_nil, fpow_succ, fpow_zero]; ring
   | succ k ih =>
     have := ih (c * zi)
-    simp only [divPowers, evalMV_cons, evalTerm_new, evalTerm_setPow hf] at this ⊢
-    rw [fpow_succ]
-    rw [fpow_succ] at this
+    simp only [divPowers, evalMV_cons, evalTerm_new, evalTerm_setPow hf, fpow_succ] at this ⊢
     linear_combination this
 
 /-- the constant part that `divide_at_point` drops (`if term.is_constant() { continue; }`) -/
@@ -100,23 +102,35 @@ def constSum : MVPoly F → F
   | [] => 0
   | ct :: p => constOf ct + constSum p
 
+theorem divTerm_some {i k : Nat} (zi : F) {ct : F × Term} (hc : ¬ Term.isConstant ct.2 = true)
+    (hf : Term.find? i ct.2 = some k) :
+    divTerm i zi ct = ((divPowers i zi ct.2 k ct.1).1
+        ++ [((divPowers i zi ct.2 k ct.1).2, Term.new (Term.erase i ct.2))],
+      [(zi * (divPowers i zi ct.2 k ct.1).2, Term.new (Term.erase i ct.2))]) := by
+  unfold divTerm
+  simp only [hc, hf]
+  rfl
+
 theorem divTerm_spec (i : Nat) (zi : F) (ct : F × Term) (x : List F)
     (hpos : ∀ q ∈ ct.2, q.2 ≠ 0) :
     ct.1 * evalTerm ct.2 x
       = constOf ct + (getD' x i 0 - zi) * evalMV (divTerm i zi ct).1 x
           + evalMV (divTerm i zi ct).2 x := by
-  unfold divTerm constOf
+  unfold constOf
   by_cases hc : Term.isConstant ct.2 = true
-  · simp only [hc, if_true, evalMV_nil, Term.isConstant_eval hc]; ring
-  · simp only [hc]
-    cases hf : Term.find? i ct.2 with
-    | none => simp
+  · unfold divTerm
+    simp only [hc, if_true, evalMV_nil, Term.isConstant_eval hc]; ring
+  · cases hf : Term.find? i ct.2 with
+    | none =>
+      unfold divTerm
+      simp [hc, hf]
     | some k =>
       have hk : k ≠ 0 := hpos (i, k) (find?_mem hf)
       obtain ⟨k', rfl⟩ : ∃ k', k = k' + 1 := ⟨k - 1, by omega⟩
       have h1 := divPowers_spec hf zi x k' ct.1
       have h2 := evalTerm_find hf x
-      simp only [evalMV_append, evalMV_cons, evalMV_nil, evalTerm_new, h2]
+      rw [divTerm_some zi hc hf]
+      simp only [evalMV_append, evalMV_cons, evalMV_nil, evalTerm_new, h2, hc]
       simp only [Bool.false_eq_true, if_false]
       linear_combination h1
 
@@ -304,15 +318,18 @@ theorem divideAtPoint_exact [DecidableEq F] (nv : Nat) (p : MVPoly F) (z x : Lis
     simp only [Term.varsBelow, List.all_eq_true, decide_eq_true_eq] at this
     simpa using this q hq
 
+theorem divLoop_length [DecidableEq F] (z : List F) (n i : Nat) (p : MVPoly F) :
+    (divLoop z n i p).length = n := by
+  induction n generalizing i p with
+  | zero => rfl
+  | succ n ih => simp [divLoop, ih]
+
 theorem divideAtPoint_length [DecidableEq F] (nv : Nat) (p : MVPoly F) (z : List F) :
     (divideAtPoint nv p z).length = nv := by
   unfold divideAtPoint
   split
   · simp
-  · generalize 0 = i
-    induction nv generalizing i p with
-    | zero => rfl
-    | succ n ih => simp [divLoop, ih]
+  · exact divLoop_length z nv 0 p
 
 end PST
 end PCV
